@@ -1006,11 +1006,17 @@ PROPS["C01"] = {
                   "dispatch_sound, dispatch_first/dispatch_least (the winner is the head of the priority enumeration: children in list "
                   "order, a match-all child taking 1,2,3… segments, the match-all leaf last), sibling_order_fifo + tree_invariant (lists "
                   "sorted by rank, first come first served within a rank), rank_documented (regenerated iota order), and "
-                  "serve_dispatch_iff at Router.ServeHTTP level (fast path included). The model is tied to tree.go/leaf.go/router.go by a "
+                  "serve_dispatch_iff at Router.ServeHTTP level (fast path included). Props/C01Priority reads list order in terms of rank "
+                  "and registration ids, for every history with increasing ids: birth_order (BirthInv: equally ranked siblings stand in "
+                  "registration order at every depth, a node's time being minHid = the id of its earliest route; every node has a leaf "
+                  "beneath it), enumeration_sorted (derivWalks is sorted by the documented priority), leaf_priority, subtree_priority, "
+                  "matchall_fewest, matchall_leaf_last (the chosen walk against any other accepting walk, walks given declaratively by "
+                  "ReachW), and the router_* versions (the ids of a router's method trees increase when the calls' numbers do). "
+                  "The model is tied to tree.go/leaf.go/router.go by a "
                   "differential check on random, wide (13–24 alternatives under one node) and small-scope-exhaustive route sets at Flame "
                   "and Tree level; route texts are parsed by the verified model parser.",
     "level_note": "Trusted: Lean kernel; hand-written model tied by differential testing; regexp is a parameter.",
-    "props_modules": ["Flamego.Props.C01", "Flamego.Props.C01Router", "Flamego.Proofs.TreeMatch", "Flamego.Proofs.TreeAdd", "Flamego.Proofs.ParsedOfWF", "Flamego.Proofs.RouterBuild"],
+    "props_modules": ["Flamego.Props.C01", "Flamego.Props.C01Router", "Flamego.Props.C01Priority", "Flamego.Proofs.TreeMatch", "Flamego.Proofs.TreeAdd", "Flamego.Proofs.ParsedOfWF", "Flamego.Proofs.RouterBuild", "Flamego.Proofs.TreeBirth", "Flamego.Proofs.TreeWalks", "Flamego.Proofs.RouterBirth"],
     "suite": "C01",
     "compare": lambda s, R, M: rp.cmp_dispatch(s, R, M),
     "stats": rp.router_stats(lambda op, r, m, n: r.startswith("h ") and (" alts=" not in m or int(m.rsplit(" alts=", 1)[1]) >= 2),
